@@ -8,7 +8,7 @@ relations (including NaN/inf), i.e. decided exhaustively, without running the so
 import ast
 import itertools
 
-from .. import astx, cfg as cfgm
+from .. import pathx, astx, cfg as cfgm
 from ..core import AnalysisError
 from ..engine import rule, describe, selftest, Mutant, Twin
 
@@ -788,6 +788,93 @@ ITER_WRITERS = {
 }
 
 
+# --------------------------------------------------------------------------- norm definition
+def _is_resid_vec(e):
+    """True for `<system>._residuals` (any receiver spelling: self._system()._residuals, system._residuals)."""
+    return isinstance(e, ast.Attribute) and e.attr == '_residuals'
+
+
+def _full_resid_array(e):
+    """True for `<residual vector>.asarray(...)` / `._get_data()` -- the whole residual vector as an array."""
+    return isinstance(e, ast.Call) and astx.callee_attr(e) in ('asarray', '_get_data') and \
+        astx.receiver(e) is not None and _is_resid_vec(astx.receiver(e))
+
+
+def _norm_kind(e):
+    """'full' | 'subset' | None for the expression returned by a nonlinear _iter_get_norm."""
+    if not isinstance(e, ast.Call):
+        return None
+    nm = astx.callee_attr(e)
+    if nm == 'get_norm' and astx.receiver(e) is not None and _is_resid_vec(astx.receiver(e)) and not e.args:
+        return 'full'
+    if nm in ('compute_norm', 'norm') and len(e.args) == 1 and not e.keywords:
+        a = e.args[0]
+        if _full_resid_array(a):
+            return 'full'
+        if isinstance(a, ast.Call) and astx.callee_attr(a) == 'get_vector' and len(a.args) == 1 and \
+                _is_resid_vec(a.args[0]):
+            return 'subset'
+    return None
+
+
+@rule('C09.normdef', floor=2)
+def norm_definition(repo, out):
+    """Every nonlinear _iter_get_norm returns the norm of the whole residual vector of the system.
+
+    A norm over a selection of states (Broyden's get_vector) is accepted only on the path where the
+    selection is the whole vector (`self._full_inverse`, for which get_vector must return vec.asarray())."""
+    base = (SOLVER, 'NonlinearSolver')
+    seen = 0
+    for rel, qn in repo.subclasses(*base):
+        fn = repo.module(rel).funcs.get(f'{qn}._iter_get_norm')
+        if fn is None or not rel.startswith('openmdao/solvers/'):
+            continue
+        seen += 1
+        ps = pathx.paths(fn.node.body, params=['self'])
+        bad = False
+        for p in ps:
+            if p.opaque_return or p.ret is None:
+                out.unsure(fn, fn.node, 'a path does not end in `return <norm expression>`')
+                bad = True
+                continue
+            k = _norm_kind(p.ret)
+            conds = p.cond_atoms()
+            if k == 'full':
+                continue
+            if k == 'subset':
+                if ('self._full_inverse', True) in conds:
+                    continue
+                out.bad(fn, p.origs[-1], 'the norm that drives termination is taken over the selected states only '
+                        'on a path where the selection need not be the whole system (not under self._full_inverse): '
+                        'the solver can report success while the residual norm is above both tolerances',
+                        key='norm-subset')
+                bad = True
+                continue
+            out.unsure(fn, p.origs[-1], f'returned norm expression not recognised: {astx.src(p.ret)}')
+            bad = True
+        if not bad:
+            out.ok(fn, fn.node, f'{len(ps)} path(s): norm of the whole residual vector')
+        # the selection helper returns the whole vector under _full_inverse
+        gv = repo.module(rel).funcs.get(f'{qn}.get_vector')
+        if gv is not None and any(_norm_kind(p.ret) == 'subset' for p in ps if p.ret is not None):
+            okv = False
+            params = [a.arg for a in gv.node.args.args]
+            for q in pathx.paths(gv.node.body, params=params):
+                if ('self._full_inverse', True) in q.cond_atoms():
+                    r = q.ret
+                    if isinstance(r, ast.Name) and q.last_value(r.id) is not None:
+                        r = q.last_value(r.id)
+                    okv = isinstance(r, ast.Call) and astx.callee_attr(r) == 'asarray' and len(params) > 1 and \
+                        astx.path(astx.receiver(r)) == params[1]
+                    if not okv:
+                        out.bad(gv, q.origs[-1], 'get_vector does not return the whole vector under _full_inverse',
+                                key='norm-getvector')
+            if okv:
+                out.ok(gv, gv.node, 'get_vector returns vec.asarray() under _full_inverse')
+    if seen < 2:
+        raise AnalysisError('expected _iter_get_norm on NonlinearSolver and BroydenSolver')
+
+
 @rule('C09.who', floor=8)
 def who(repo, out):
     """Only tabled functions write _iter_count; the six shared-loop solvers do not override _solve."""
@@ -880,6 +967,12 @@ selftest(
            "        if iprint > -1 and print_flag:\n            print(self._solver_info.prefix + self.SOLVER + msg)\n        else:\n            return", 'C09.report'),
     Mutant('who-new-writer', 'openmdao/solvers/nonlinear/newton.py', '        self._solver_info.append_subsolver()\n',
            '        self._solver_info.append_subsolver()\n        self._iter_count = 0\n', 'C09.who'),
+    Mutant('normdef-broyden-inverted', 'openmdao/solvers/nonlinear/broyden.py', '        if not self._full_inverse:\n            # Use full model residual for driving the main loop convergence.',
+           '        if self._full_inverse:\n            # Use full model residual for driving the main loop convergence.', 'C09.normdef'),
+    Mutant('normdef-broyden-subset-always', 'openmdao/solvers/nonlinear/broyden.py', '            fxm = self._system()._residuals.asarray()\n\n        return self.compute_norm(fxm)',
+           '            pass\n\n        return self.compute_norm(fxm)', 'C09.normdef'),
+    Twin('twin-normdef-broyden-else', 'openmdao/solvers/nonlinear/broyden.py', '        if not self._full_inverse:\n            # Use full model residual for driving the main loop convergence.\n            fxm = self._system()._residuals.asarray()\n\n        return self.compute_norm(fxm)',
+         '        if self._full_inverse:\n            return self.compute_norm(fxm)\n        system = self._system()\n        return self.compute_norm(system._residuals.asarray())'),
     Twin('twin-count-plain-add', _S, '                self._single_iteration()\n                self._iter_count += 1\n                self._run_apply()', '                self._single_iteration()\n                self._iter_count = self._iter_count + 1\n                self._run_apply()'),
     Twin('twin-report-alias-nested', _S, "        if self.options['err_on_non_converge']:\n            raise AnalysisError(msg)\n        elif 'debug_print' in self.options and self.options['debug_print']:",
          "        opts = self.options\n        if opts['err_on_non_converge']:\n            raise AnalysisError(msg)\n        if 'debug_print' in self.options and self.options['debug_print']:"),
